@@ -849,6 +849,18 @@ class Walker:
         return out
 
     def s_If(self, st: ast.If):
+        # `if k not in d: d[k] = v` is `d.setdefault(k, v)`
+        if (not st.orelse and len(st.body) == 1 and isinstance(st.body[0], ast.Assign) and len(st.body[0].targets) == 1
+                and isinstance(st.test, ast.Compare) and len(st.test.ops) == 1 and isinstance(st.test.ops[0], ast.NotIn)
+                and isinstance(st.body[0].targets[0], ast.Subscript)):
+            tg = st.body[0].targets[0]
+            if ast.dump(tg.value) == ast.dump(st.test.comparators[0]).replace("ctx=Store()", "ctx=Load()") and ast.dump(tg.slice) == ast.dump(st.test.left) \
+                    and not any(isinstance(n, (ast.Await, ast.Call, ast.NamedExpr)) for n in ast.walk(st.body[0].value)):
+                callx = ast.Call(func=ast.Attribute(value=st.test.comparators[0], attr="setdefault", ctx=ast.Load()), args=[st.test.left, st.body[0].value], keywords=[])
+                ex = ast.Expr(value=callx)
+                for n in (callx, callx.func, ex):
+                    ast.copy_location(n, st.body[0])
+                return self.s_Expr(ex)
         c = self.expr(st.test)
         sc = T.fuse(T.strip(c))
         if sc[0] == "const" and not isinstance(st.test, ast.Constant):
@@ -1051,6 +1063,19 @@ class Walker:
     s_AsyncWith = s_With
 
     def s_Try(self, st: ast.Try):
+        # `try: x = d[k] except KeyError: H` (nothing else in the body) is `if k not in d: H else: x = d[k]`
+        if (len(st.body) == 1 and isinstance(st.body[0], ast.Assign) and isinstance(st.body[0].value, ast.Subscript) and not st.orelse and not st.finalbody
+                and len(st.handlers) == 1 and isinstance(st.handlers[0].type, ast.Name) and st.handlers[0].type.id == "KeyError" and st.handlers[0].name is None):
+            sub = st.body[0].value
+            base = sub.value
+            while isinstance(base, ast.Attribute):
+                base = base.value
+            if isinstance(base, ast.Name) and isinstance(sub.slice, (ast.Constant, ast.Name)) and all(isinstance(t, ast.Name) for t in st.body[0].targets):
+                test = ast.Compare(left=sub.slice, ops=[ast.NotIn()], comparators=[sub.value])
+                iff = ast.If(test=test, body=st.handlers[0].body, orelse=[st.body[0]])
+                ast.copy_location(test, sub)
+                ast.copy_location(iff, st)
+                return self.s_If(iff)
         self._try_counter += 1
         tid = self._try_counter
         saved_tries = self.tries
